@@ -4,7 +4,7 @@ use crate::drive::{execute, new_store, Outcome};
 use crate::model::*;
 use crate::util::Panic;
 use serde_json::{json, Value};
-use stam::AnnotationStore;
+use stam::{AnnotationStore, Config, Configurable, StoreFor};
 
 #[derive(Debug, Clone)]
 pub enum Agreement {
@@ -59,6 +59,15 @@ pub struct History {
 impl History {
     pub fn new(milestone: usize, shrink: bool) -> Self {
         History { store: new_store(milestone, shrink), model: Model::new(), log: Vec::new(), ops: Vec::new(), ended: None }
+    }
+
+    /// a store in which temporary ids are switched off (`strip_temp_ids(false)`), configured at construction or afterwards
+    pub fn new_no_temp_ids(milestone: usize, shrink: bool, via_with_config: bool) -> Self {
+        let cfg = Config::default().with_debug(false).with_milestone_interval(milestone).with_shrink_to_fit(shrink).with_strip_temp_ids(false);
+        let store = if via_with_config { AnnotationStore::default().with_config(cfg).with_id("verif") } else { AnnotationStore::new(cfg).with_id("verif") };
+        let mut model = Model::new();
+        model.no_temp_ids = true;
+        History { store, model, log: Vec::new(), ops: Vec::new(), ended: None }
     }
 
     pub fn step(&mut self, op: &Op) -> StepResult {
